@@ -154,8 +154,9 @@ def check_C08(chk):
         c08c(chk, g)
         c08e(chk, g)
     c08d(chk)
+    RC.record_accessors(chk, "C08.d")
     c08f(chk)
-    for r, n in (("C08.a", 2), ("C08.b", 3), ("C08.c", 2), ("C08.d", 3), ("C08.e", 1), ("C08.f", 3)):
+    for r, n in (("C08.a", 2), ("C08.b", 3), ("C08.c", 2), ("C08.d", 7), ("C08.e", 1), ("C08.f", 3)):
         chk.floor(r, n)
 
 
@@ -996,6 +997,21 @@ def c12d(chk):
                 if s["kind"] == "discr" and s["place"] and an.owned_self_field(s["place"]) == fld:
                     ok = ok or an.dominated_by_edge(g, sb, an.edge_target(st, 0), b)
             chk.ob("C12.d", "build_from_reader/%s::detect-only-when-unset" % nm, ok, g.loc(b), "detection runs only when the builder field `%s` is None" % fld)
+    # BGZF is a series of gzip members: wherever compressed content is peeked or read with flate2, the multi-member decoder is used
+    # (a single-member GzDecoder stops at the end of the first block, so the result would depend on the block layout)
+    n = 0
+    for h in prog.fn_list:
+        if h.derived:
+            continue
+        for b, t in h.calls():
+            pth = callee_name(t["callee"])
+            if pth.startswith("flate2::") and pth.endswith("::new") and ("Decoder" in pth):
+                n += 1
+                chk.saw_calls()
+                multi = "MultiGzDecoder" in pth
+                chk.ob("C12.d", "gzip-decoder@%s/multi-member" % RP.norm_fn(h.path).split("sfs_core::")[-1], multi, h.loc(b),
+                       "%s: BGZF input must be decoded across gzip member boundaries (block layout must not matter)" % pth)
+    chk.ob("C12.d", "gzip-decoders/found", n >= 1, "", "%d flate2 decoder construction(s) in the workspace" % n, nontrivial=False)
     # container and compression are always decided from the content: the explicit setters have no caller in the workspace
     for nm in ("set_format", "set_compression_method"):
         cs = prog.callers_of(GENO_BUILDER + "::" + nm)
